@@ -58,7 +58,8 @@ def build_corpus(tier, seed):
                            ("mixed", gen.mem_vocab(small=True) + gen.sto_vocab() + gen.split_vocab() + gen.stack_vocab(), 50)):
             b, r = gen.enumerate_blocks(v, [["*"] * 10], 5, simulate=(n, 11), seed=seed)
             sim += b
-        real = corpus.sample(corpus.real_blocks(), 500, seed)
+        real = corpus.sample(corpus.real_blocks(), 300, seed)
+        rc = corpus.sample(rc, 500, seed)
         chain = []
     else:
         rb, r1 = gen.enumerate_blocks(gen.rule_vocab(gen.C9), gen.RULE_SHAPES_BASIC, 3)
@@ -95,12 +96,12 @@ def plan(tier, groups, seed):
             cmds = []
             cmds += groups["H"]
             if is_smt(argv):
-                cmds += corpus.sample(groups["Xrule"], 120, seed + i)
-                cmds += corpus.sample(groups["Xvoc"], 60, seed + i)
-                cmds += corpus.sample(groups["R"], 60, seed + i)
+                cmds += corpus.sample(groups["Xrule"], 80, seed + i)
+                cmds += corpus.sample(groups["Xvoc"], 40, seed + i)
+                cmds += corpus.sample(groups["R"], 40, seed + i)
             else:
                 cmds += groups["Xrule"] if i < 2 else corpus.sample(groups["Xrule"], 400, seed + i)
-                cmds += groups["Xvoc"] if i == 0 else corpus.sample(groups["Xvoc"], 600, seed + i)
+                cmds += groups["Xvoc"] if i == 0 else corpus.sample(groups["Xvoc"], 300, seed + i)
                 cmds += groups["S"]
                 cmds += groups["R"]
             jobs.append((name, argv, [dict(c) for c in cmds]))
@@ -180,7 +181,12 @@ def run(tier):
             viol.append((c, cl))
         elif cl[0] == "undecided":
             undec += 1
-    out = findings.settle("C01", viol, lambda c: {"orig": plain_of(c["orig"]), "opt": plain_of(c["opt"]), "opts": c["opts"]})
+    def keys(c):
+        ks = [plain_of(c["orig"]) + " => " + plain_of(c["opt"])]
+        if findings.misaligned_overlap(plain_of(c["orig"])):
+            ks.append("misaligned-overlap")
+        return ks
+    out = findings.settle("C01", viol, lambda c: {"orig": plain_of(c["orig"]), "opt": plain_of(c["opt"]), "opts": c["opts"]}, keys)
     samples = [{"orig": plain_of(c["orig"]), "opt": plain_of(c["opt"]), "options": c["opts"][:3],
                 "verdict": equiv.classify(verdicts.get(c["id"], []))[0]} for c in cases[:3] + cases[-3:]]
     cov = {"states": st["states"], "transitions": st["transitions"],
